@@ -2349,7 +2349,8 @@ def diff_ulp(x, y, flush_subnormals=UNSPECIFIED, equal_nan=False) -> int:
 def make_complex(r, i):
     if r.dtype == numpy.float32 and i.dtype == numpy.float32:
         return numpy.array([r, i]).view(numpy.complex64)[0]
-    elif i.dtype == numpy.float64 and i.dtype == numpy.float64:
+    elif r.dtype in (numpy.float32, numpy.float64) and i.dtype in (numpy.float32, numpy.float64):
+        # numpy.array promotes a float32 part to float64
         return numpy.array([r, i]).view(numpy.complex128)[0]
     raise NotImplementedError((r.dtype, i.dtype))
 
